@@ -849,9 +849,9 @@ func Run(c *hx.Ctx) {
 		"for every document ONE more reader whose views (TextWithOptions, MarkdownWithOptions, MarkdownWithRAGOptions, Document, ModelTables, parsed elements) are asked for in a drawn order with repetitions and drawn options (exclusion switches, heading offset -3..4, heading cap 0/1/3/6/9/-1), every answer compared in full with the Lean model of the writers; the views through tabula.Open(f) with drawn Exclude switches; a drawn history of 3..12 Resolve calls (ids the document uses and ids it does not define, repeated, the empty id) on one style resolver; the row spans of every DOCX body table against the state-free specification of the vertical-merge pass; " +
 		"plus a render stream: regular documents into which body paragraphs are planted that ARE header/footer lines (bare, padded with spaces / tabs / no-break spaces / line breaks, near misses; as paragraph, heading, list item, table cell), cell text with pipes and Unicode spaces, a first / last paragraph that begins / ends with line breaks, paragraphs and list items without text, DOCX headings that also carry numbering properties, numbering parts and ODT list styles drawn at random (every number format incl. unknown ones, level texts plain / pattern / Private-Use / control character / empty, start values 0 / negative / huge / not a number, levels missing or defined twice, ids that point nowhere), ODT lists without a style name or with an undefined one - these are checked by the correspondence of all views, the panic check and the leak count (a header/footer line occurs in Text() / Markdown() exactly as often as the body holds it, exclusion never adds text); " +
 		"plus fixed witnesses of the quoted defects and a stream of damaged packages; " +
-		"plus documents AT THE RESOURCE BOUNDS of the readers, written element by element (bounds.go; distribution buckets bound:…): inline containers (w:ins/w:sdt/w:sdtContent/w:hyperlink/w:smartTag/w:fldSimple/w:moveTo, text:span/text:a) nested 9999, 10000, 10001, 10002 and 40000 deep with text at several depths - in a body paragraph, a heading, a list-item paragraph, a table-cell paragraph, a header part, a nested table (not decoded), with block elements behind the refused tag; " +
-		"text:s counts 1, 7, 1023, 1024, 1025, 4096, 2^31-1, 2^63-1, 2^63, 10^20-1, +5, 007, 0, -3, empty, a word, omitted; tables whose rows x spanned columns are 2^20-cols, 2^20, 2^20+cols (spans 1024, 1000 - integer division -, 2 x 256, with vMerge, with row spans 16 and 1024), twenty and eight million, and large tables without spans; a basedOn chain of 2000 styles - " +
-		"within the bound the oracles demand every text piece in order in all views, the written number of spaces, the authored spans; beyond it: DOCX refused by Open with an error, an ODT element the decoder gives up in dropped with the pieces before it intact, space runs 1024 long, over-limit tables 1 x 1 with every cell text still present; " +
+		"plus documents AT THE RESOURCE BOUNDS of the readers, written element by element (bounds.go; distribution buckets bound:…): inline containers (w:ins/w:sdt/w:sdtContent/w:hyperlink/w:smartTag/w:fldSimple/w:moveTo, text:span/text:a) nested 9999, 10000, 10001, 10002 and 40000 deep with text at several depths - in a body paragraph, a heading, a list-item paragraph, a table-cell paragraph, a header part, a nested table (not decoded), as the first body paragraph, inside a text:section, inside a skipped text:note (not decoded), with block elements behind the refused tag; " +
+		"text:s counts 1, 7, 1023, 1024, 1025, 4096, 2^31-1, 2^63-1, 2^63, 10^20-1, +5, 007, 0, -3, empty, a word, omitted; tables whose rows x spanned columns are 2^20-cols, 2^20, 2^20+cols (spans 1024, 1000 - integer division -, 2 x 256, with vMerge, with row spans 16 and 1024), twenty and eight million, and large tables without spans; ODT tables whose table:table-column elements DECLARE more columns than the rows hold: rows x declared columns = 2^20 exactly (1024 x 1024, 1 x 2^20), one row / one column more, 1048 / 1049 rows x 1000, 128 x 131072 (the quoted document), 300 x 307200, 2 x 2048000; a basedOn chain of 2000 styles - " +
+		"within the bound the oracles demand every text piece in order in all views, the written number of spaces, the authored spans; beyond it: DOCX and ODT refused by Open with an error through docx.Open / odt.Open and tabula.Open(f) (never a document cut short without an error), space runs 1024 long, over-limit tables 1 x 1 with every cell text still present, the grid of Document() as wide as the declared columns while rows x declared columns <= 2^20 and as wide as the widest row beyond; " +
 		"non-trivial = Document() has at least one element"
 	if os.Getenv("VERIF_C16_ONLY") == "bounds" { // debugging aid: the documents at the bounds alone
 		runBounds(c)
